@@ -712,6 +712,25 @@ class Executor(object):
         if isinstance(op, (ast.Is, ast.IsNot)):
             r = B.identical(self, st, a, b)
             return z3.Not(r) if isinstance(op, ast.IsNot) else r
+        if isinstance(op, (ast.Eq, ast.NotEq)) and isinstance(a, VObj) and isinstance(b, VObj) and a.ref != b.ref \
+                and not a.cls.startswith('$'):
+            ci = self.class_info(a.cls)
+            eqm = self.db.find_method(ci, '__eq__') if ci else None
+            nem = self.db.find_method(ci, '__ne__') if ci else None
+            if eqm is not None and not (isinstance(op, ast.NotEq) and nem is not None):
+                neg = isinstance(op, ast.NotEq)
+
+                def f(s, a=a, b=b, eqm=eqm, neg=neg):
+                    outs = self.call_function(s, eqm, [a, b], {}, None, force_inline=True)
+                    res = []
+                    for s2, r in outs:
+                        if isinstance(r, Raised):
+                            res.append((s2, r))
+                        else:
+                            t = self.truth(s2, r)
+                            res.append((s2, z3.Not(t) if neg else t))
+                    return res
+                return f
         if isinstance(op, ast.Eq):
             return B.py_eq(self, st, a, b)
         if isinstance(op, ast.NotEq):
